@@ -17,6 +17,9 @@ CHECKS = {
  "C08": (MICRO, "Recovery script from whatever state the drawn history reached, at component level (validator-accepted parameters) and through the balancer (accepted configurations): closed and admitting within timeout + success_threshold+max_requests+1 successes; wait-for-graph deadlock / no-progress detection on state-change notifications.", "§3 C08"),
  "C09": (MICRO, "Seeded arrival histories on the fake clock (bursts of concurrent tasks, gaps around the refill period, idle hours across bucket expiry): all-pairs window bound, burst bound, full first burst, refill after idling, isolation by differential execution; at balancer level 429 + not forwarded + counted and client-key precedence.", "§3 C09"),
  "C11": (MICRO, "Seeded sequential and concurrent admin histories (2-4 actors + traffic) through the real admin mux; linearizability of the step-stamped history against a sequential multiset model (porcupine); traffic served throughout and never by a definitely removed backend; strategy switch preserves health.", "§3 C11"),
+ "C12": ("deterministic simulation workload (seeded) executed by free-running goroutines under the Go race detector (happens-before analysis); schedule not seed-decided in this check", "Seeded workloads of 8-64 goroutines (traffic with faults, admin mutations, metrics/health/backends readers, health transitions, breaker, limiter, shutdown) over the real stack built with -race, every strategy and feature combination drawn; violations are race reports touching Helios frames, panics, goroutines stuck on Helios locks. Deterministic deadlock/atomicity detection is contributed by the controlled-schedule checks (C03, C07, C08, C19).", "§3 C12"),
+ "C14": (SYS, "Seeded exchanges through size_limit at drawn chain positions: limits 1-4096, bodies at limit-1/limit/limit+1/3x in declared and chunked framing, response bodies split into writes and network fragments, every status class incl. bodiless; byte bounds at both ends, 413 rules, and the C01 differential oracle within the limits.", "§3 C14"),
+ "C15": (SYS, "Seeded exchanges through gzip at drawn chain positions: Accept-Encoding spellings, content types, sizes around min_size, compressible/incompressible payloads, pre-encoded backend responses, levels -1..9; the client's bytes decoded by the headers it received must equal the backend's body with the backend's status; compressed only if eligible, otherwise byte-identical. The 10MB cap is exercised only through the buffering-limit code path in the thorough tier's large bodies (<= 2MB): NOT at 10MB.", "§3 C15"),
  "C13": (MICRO + " + " + SYS, "Conservation equations at every quiescent point against the harness' own tallies over every request class, sequential and concurrent (micro, exact per backend), and after fault sequences behind the real server (system: totals, classes, gauges at idle).", "§3 C13"),
  "C16": (MICRO + " + " + SYS, "Identifier middleware under concurrent generation at one frozen virtual instant (distinctness, echo, handler-sees-what-client-gets, disabled untouched) and the same invariants on every exchange of the system-level transparency runs.", "§3 C16"),
  "C19": (MICRO, "Stop() at drawn virtual instants (before first probe, mid-probe, between ticks, at a tick) and drawn interleavings with the ticker goroutine, repeated/concurrent Stop calls: bounded return, no probe after return, WaitGroup reuse (a real sync.WaitGroup panic) detected by the instrumented WaitGroup.", "§3 C19"),
